@@ -10,6 +10,8 @@ import kv
 kv.build_harness(("dev",), ("hooks",))   # variant with the verif-hooks feature (C10, C11)
 kv.build_harness(("dev", "nochk"))
 PY
+# the operator's binary (ctl/src/main.rs) for C19's component ctl.binary; the check rebuilds it incrementally
+(cd "${KV_REPO:-/repo}" && cargo build --offline --quiet -p kvarnctl --target-dir "$OLDPWD/harness/target-ctl" >/dev/null 2>&1) || echo "kvarnctl build failed (C19 will report it)"
 (cd coq && ./gen.sh && timeout 3000 make -j16 >/dev/null 2>&1) || echo "coq build failed (checks will report it)"
 python3 - <<'PY'
 import sys
